@@ -38,3 +38,9 @@ add("C05", OTHER, "SSA -> ring-mode symbolic execution with inverse/encoding/par
 add("C17", OTHER, "SSA -> ring-mode symbolic execution with two inverse symbols; certificates for u*(1-y) = 1+y and the y=1 case",
     "For every valid point: u*(1-y) = 1+y with y = Y/Z when y != 1, u = 0 when y = 1 (identity only, d != -1), u independent of X and T, output = canonical encoding of u.",
     "The X25519-equivalence consequence is outside the claim.", "DESIGN.md 5/C17")
+add("C16", OTHER, "SSA -> discrete-log symbolic execution (exponents mod p-1 as linear integer forms, Equal as congruence, exhaustive split on residues mod 4), z3 LIA; exponent chain and field kernels by Int-LF / chain mode",
+    "All (u,v): on every feasible path of the real SqrtRatio body wasSquare equals the quadratic character of u/v, v*r^2 = u resp. sqrt(-1)*u, zero cases (0,1)/(0,0), receiver returned; Pow22523 exponent, Absolute (even root), Select, Equal contracts re-discharged; sqrtM1 checked concretely.",
+    "Trusted: GF(p)* cyclic of order p-1; go/ssa, executor, z3.", "DESIGN.md 5/C16")
+add("C04", OTHER, "SSA -> ring-mode symbolic execution with SqrtRatio replaced by its contract (fork on wasSquare), certificates for the output equations, bit-vector path conditions for the sign bit; symbolic slice length",
+    "All 2^256 strings: y is the field decoding (bit 255 ignored), SqrtRatio is called on (y^2-1, d*y^2+1), acceptance <=> wasSquare, output (+-r, y, 1, +-r*y) satisfies the curve and XY=ZT, x = -r exactly when bit 255 is set; rejects atomic; all other lengths rejected.",
+    "Trusted: C16 contract for SqrtRatio (its own check), -1/d non-square (concrete), go/ssa, executor, z3.", "DESIGN.md 5/C04")
